@@ -1088,3 +1088,15 @@ var concProp = h.Define(P, "concurrent", func(t *rapid.T) ConcCase {
 }, runConc)
 
 func TestConcurrentTamper(t *testing.T) { concProp.Check(t) }
+
+// TestPrefixTwinFirst: the forgery by a key whose encoding shares a long prefix with the victim's, in a process where
+// the forger's key is the FIRST of the two to be seen (nothing else has run: its own test function, fewer cases than
+// the process work-out waits for). Whichever of two look-alike keys a process meets first, each verifies only its own
+// signatures.
+func TestPrefixTwinFirst(t *testing.T) {
+	for _, d := range fixedTokens()[:4] {
+		for alt := 0; alt < 3; alt++ {
+			prop.One(t, Case{Tok: d, C: Corruption{Kind: "resign-by-prefix-twin", Alt: alt}})
+		}
+	}
+}
